@@ -357,4 +357,8 @@ def structured_families():
 
 def tree_shaped(fam_name):
     """families whose values reference no object twice (C07 needs tree-shaped values)"""
+    # an immutable leaf (date, path, string-like, enum member) occurring twice is still a tree: JSON has no identity
+    leaves = ('path', 'userstring', 'ystring', 'date', 'datetime', 'enum')
+    if fam_name in ['shared-' + x for x in leaves] + ['shared-coll-' + x for x in leaves]:
+        return True
     return not fam_name.startswith('shared')
